@@ -55,14 +55,14 @@ func c11Rules(tier string) []Rule {
 		core.Custom{ID: "C11.AGG1", Kind: "WSET", Run: c11VolumeAggregate},
 
 		// ---- constructors
-		MPT{ID: "C11.POST1a", Fn: nfnc, Ret: core.RetAny, Gates: gates(G(`instr:` + upr + `\$0, phi\(\$2\|state\.NewNode\(\)\), &local<state\.StateNode>\)$`))},
+		MPT{ID: "C11.POST1a", Fn: nfnc, Ret: core.RetAny, Gates: gates(G(`instr:` + upr + `\$0, phi\(\$2\|state\.NewNode\(\)\), (&local<state\.StateNode>|state\.NewNode\(\))\)$`))},
 		MPT{ID: "C11.POST1b", Fn: nfn, Ret: core.RetOK, Gates: gates(
-			G(`instr:`+upr+`\$0, phi\(\$3\|state\.NewNode\(\)\), &local<state\.StateNode>\)$`),
+			G(`instr:`+upr+`\$0, phi\(\$3\|state\.NewNode\(\)\), (&local<state\.StateNode>|state\.NewNode\(\))\)$`),
 			G(`+^go\.uber\.org/multierr\.Combine\(&local<\[2\]error>\[:\]\) == nil$`),
 		)},
 		core.Custom{ID: "C11.POST1c", Kind: "POST", Run: func(w *core.World, id string) []core.Result {
-			rs := core.InstrPresent(w, id, "POST", nfn, `^store &local<\[2\]error>\[0\] = \(\*state\.Cluster\)\.populateResourceRequests\(\$0, &local<state\.StateNode>\)$`, 1, "pod aggregates are rebuilt from the API")
-			return append(rs, core.InstrPresent(w, id, "POST", nfn, `^store &local<\[2\]error>\[1\] = \(\*state\.Cluster\)\.populateVolumeLimits\(\$0, &local<state\.StateNode>\)$`, 1, "volume limits are rebuilt from the API")...)
+			rs := core.InstrPresent(w, id, "POST", nfn, `^store &local<\[2\]error>\[0\] = \(\*state\.Cluster\)\.populateResourceRequests\(\$0, (&local<state\.StateNode>|state\.NewNode\(\))\)$`, 1, "pod aggregates are rebuilt from the API")
+			return append(rs, core.InstrPresent(w, id, "POST", nfn, `^store &local<\[2\]error>\[1\] = \(\*state\.Cluster\)\.populateVolumeLimits\(\$0, (&local<state\.StateNode>|state\.NewNode\(\))\)$`, 1, "volume limits are rebuilt from the API")...)
 		}},
 		POST{ID: "C11.POST1d", Fn: nfnc, FromLit: `-^\$0\.nodeClaimNameToProviderID\[\$1\.ObjectMeta\.Name\]#0 == \$1\.Status\.ProviderID$`, Must: []string{`^call \(\*state\.Cluster\)\.cleanupNodeClaim\(\$0, \$1\.ObjectMeta\.Name\)$`}},
 		POST{ID: "C11.POST1e", Fn: nfn, FromLit: `-^\$0\.nodeNameToProviderID\[\$2\.ObjectMeta\.Name\]#0 == \$2\.Spec\.ProviderID$`, Must: []string{`^call \(\*state\.Cluster\)\.cleanupNode\(\$0, \$2\.ObjectMeta\.Name\)$`}},
@@ -172,7 +172,7 @@ func deepCopyFresh(w *core.World, id, fnName, typ string) []core.Result {
 	}
 	construct := "COPY:" + fnName
 	// whole struct copy
-	if len(w.Sites(fn, regexp.MustCompile(`^store \$1 = \$0$`), false)) == 0 {
+	if len(w.SitesOr(fn, regexp.MustCompile(`^store \$1 = \$0$`), false, 1)) == 0 {
 		return []core.Result{core.Bad(id, "COPY", construct, w.Pos(fn.Pos()), "no whole-struct copy `*out = *in`: value-typed fields are not carried")}
 	}
 	var out []core.Result
@@ -347,6 +347,11 @@ func c11PodSymmetry(w *core.World, id string) []core.Result {
 
 // C11.COPY4: newStateFromNode.
 func c11FromNode(w *core.World, id string) []core.Result {
+	return fromNode(w, id, nil)
+}
+
+// fromNode: newStateFromNode carries the in-memory state of the previous StateNode over (only: just those fields).
+func fromNode(w *core.World, id string, only []string) []core.Result {
 	const nfn = "(*state.Cluster).newStateFromNode"
 	up := w.Fn("(*state.StateNode).updateForPod")
 	if up == nil {
@@ -355,17 +360,20 @@ func c11FromNode(w *core.World, id string) []core.Result {
 	agg := aggregateFields(w, up)
 	rebuilt := map[string]string{}
 	for f := range agg {
-		rebuilt[f] = `^store &local<\[2\]error>\[0\] = \(\*state\.Cluster\)\.populateResourceRequests\(\$0, &local<state\.StateNode>\)$`
+		rebuilt[f] = `^store &local<\[2\]error>\[0\] = \(\*state\.Cluster\)\.populateResourceRequests\(\$0, (&local<state\.StateNode>|state\.NewNode\(\))\)$`
 	}
 	rs := core.CopyCoverage(w, id, core.CopySpec{Fn: nfn, Type: "state.StateNode", Source: `phi\(\$3\|state\.NewNode\(\)\)`,
 		Exempt:  map[string]string{"Node": "replaced by the Node being observed"},
-		Rebuilt: rebuilt})
-	// each aggregate is initialised in the literal or nil-guarded in updateForPod
+		Rebuilt: rebuilt, Only: only})
+	if only != nil {
+		return rs
+	}
+	// each aggregate is initialised in the literal (or by the constructor) or nil-guarded in updateForPod
 	fn := w.Fn(nfn)
 	if fn == nil {
 		return rs
 	}
-	var dest *ssa.Alloc
+	var dest ssa.Value
 	for _, b := range fn.Blocks {
 		for _, in := range b.Instrs {
 			if a, ok := in.(*ssa.Alloc); ok && core.TypeStr(a.Type()) == "*state.StateNode" {
@@ -373,10 +381,27 @@ func c11FromNode(w *core.World, id string) []core.Result {
 			}
 		}
 	}
-	if dest == nil {
-		return rs
+	var stores map[string][]ssa.Value
+	if dest != nil {
+		stores = w.ValueFieldStores(dest)
+	} else {
+		// built by the constructor: its literal initialises the aggregates
+		ctor := w.Fn("state.NewNode")
+		if ctor == nil || len(w.Sites(fn, regexp.MustCompile(`^call state\.NewNode\(\)$`), false)) == 0 {
+			return rs
+		}
+		for _, b := range ctor.Blocks {
+			for _, in := range b.Instrs {
+				if a, ok := in.(*ssa.Alloc); ok && core.TypeStr(a.Type()) == "*state.StateNode" {
+					dest = a
+				}
+			}
+		}
+		if dest == nil {
+			return rs
+		}
+		stores = w.ValueFieldStores(dest)
 	}
-	stores := w.AllocFieldStores(dest)
 	for f := range agg {
 		init := false
 		for _, v := range stores[f] {
@@ -395,7 +420,7 @@ func c11FromNode(w *core.World, id string) []core.Result {
 			}
 		}
 		if !guarded {
-			rs = append(rs, core.Bad(id, "COPY", "COPY:"+nfn+"."+f, w.InstrPos(dest), "aggregate "+f+" is left nil by newStateFromNode and updateForPod writes it without a nil guard (panic on the first pod) "))
+			rs = append(rs, core.Bad(id, "COPY", "COPY:"+nfn+"."+f, w.Pos(dest.Pos()), "aggregate "+f+" is left nil by newStateFromNode and updateForPod writes it without a nil guard (panic on the first pod) "))
 		}
 	}
 	return rs
@@ -576,7 +601,7 @@ func c11VolumeAggregate(w *core.World, id string) []core.Result {
 	if dp == nil {
 		return []core.Result{core.Anchor(id, "WSET", "(*scheduling.VolumeUsage).DeletePod")}
 	}
-	if len(w.Sites(dp, rebuilt, false)) == 0 {
+	if len(w.SitesOr(dp, rebuilt, false, 1)) == 0 {
 		out = append(out, core.Bad(id, "WSET", construct+":rebuild", w.Pos(dp.Pos()), "DeletePod does not rebuild the aggregate from the remaining pods"))
 	}
 	if n < 4 {
